@@ -957,7 +957,7 @@ func processValue(fset *token.FileSet, info *types.Info, call *ast.CallExpr) (*V
 			}
 		case *ast.CallExpr:
 			// Only acceptable if it's a type conversion.
-			if _, isFunc := info.TypeOf(expr.Fun).(*types.Signature); isFunc {
+			if tv, found := info.Types[expr.Fun]; !found || !tv.IsType() {
 				ok = false
 				return false
 			}
